@@ -305,8 +305,8 @@ func ReplayOther(c *vh.Ctx) bool {
 			fmt.Printf("replay: %s: %s\n", f.Sig, f.Detail)
 		}
 	} else {
-		for _, f := range ConcurrentSameSlot(60, 50000) {
-			c.Fail(f.Sig, f.Detail, "concurrent same-slot phase")
+		for _, f := range append(UnicodeCasePhase(), ConcurrentSameSlot(60, 50000)...) {
+			c.Fail(f.Sig, f.Detail, "non-history phase (non-ASCII case / concurrent same-slot)")
 			fmt.Printf("replay: %s: %s\n", f.Sig, f.Detail)
 		}
 	}
